@@ -7,6 +7,7 @@ CONSTANTS
   Alias <- AliasMix
   IntVal <- IntValMix
   Travs <- AllTravs
+  LenEnabled = TRUE
   MaxSteps = 4
   ViewHist = 0
   EmitAll = TRUE
